@@ -643,6 +643,25 @@ fn cli_level(rep: &Report) {
         });
         rep.extra("cli_stdin_offset_and_name_pair_runs", json!(ojobs.len()));
     }
+    // the keyring file's permission bits (0600, 0644, 0664, 0666, 0444): nothing about them reaches stdout, where the file goes
+    {
+        use std::os::unix::fs::PermissionsExt;
+        let mj: Vec<u32> = vec![0o600, 0o644, 0o664, 0o666, 0o444];
+        mj.par_iter().for_each(|&mode| {
+            rep.eval(1);
+            rep.nontrivial(format!("cli-keyring-mode-{:o}", mode).as_bytes());
+            let body = plaintext(seed ^ 0x88, 1000);
+            let sc = Scratch::new();
+            sc.write("kr.txt", kr.as_bytes());
+            let _ = std::fs::set_permissions(sc.0.join("kr.txt"), std::fs::Permissions::from_mode(mode));
+            sc.write("plain.bin", &body);
+            let out = proc::run(&Cmd::new(&["encrypt", "plain.bin", "-t", &parties[1].name, "-f", &parties[0].name, "-k", "kr.txt", "--env-pass"]).env("KESTREL_PASSWORD", &parties[0].password), &sc.0);
+            let good = out.ok() && matches!(r::read_key_file(&parties[1].sk, &out.stdout), Ok(k) if k.parsed.plaintext == body) && out.stdout.len() == 132 + 32 + body.len();
+            if !good {
+                rep.violation("cli-stdin/output-is-not-the-encryption-of-the-input", json!({"kind":"cli-stdin","keyring_mode":format!("{:o}", mode)}), format!("kestrel encrypt to a stdout pipe with a keyring file of mode {:o}: {} bytes on stdout starting {:?}; the file has {} bytes and starts with the magic number ({})", mode, out.stdout.len(), String::from_utf8_lossy(&out.stdout[..out.stdout.len().min(24)]), 132 + 32 + body.len(), out.summary().chars().take(100).collect::<String>()));
+            }
+        });
+    }
     // nobody reads stderr (its reader is gone before the first progress text) while the file goes to a stdout pipe: whatever
     // the exit status, an exit status of 0 means stdout carries exactly the file
     {
